@@ -20,10 +20,14 @@ namespace TIV.C16
 
 abbrev Cls := Nat
 
-/-- an `ArgsNamespace` instance: the render class it is associated with and its field values -/
+/-- an `ArgsNamespace` instance: the render class it is associated with, its field values, and
+    which class of the namespace-class family it is an instance of (`tag`: 0 = the class that was
+    associated, `render_cls.Args`; n > 0 = one of its field-less subclasses `class Sub(A.Args): pass`,
+    which inherit fields and association). `__eq__` and `__hash__` do not look at `tag`. -/
 structure NS where
   cls : Cls
   vals : List Int
+  tag : Nat
 deriving DecidableEq, Repr, Inhabited
 
 /-- an insertion-ordered `dict[type[Renderable], ArgsNamespace]` -/
@@ -32,7 +36,7 @@ abbrev Dict := List (Cls × NS)
 inductive Err
   | IncompatibleRenderArgsError | IncompatibleArgsNamespaceError | NoArgsNamespaceError
   | ValueError | TypeError | UnknownArgsFieldError | RenderArgsError | RenderArgsDataError
-  | UnassociatedNamespaceError | RenderDataError | UnknownDataFieldError
+  | UnassociatedNamespaceError | RenderDataError | UnknownDataFieldError | AttributeError
 deriving DecidableEq, Repr
 
 def Err.name : Err → String
@@ -47,6 +51,7 @@ def Err.name : Err → String
   | .UnassociatedNamespaceError => "UnassociatedNamespaceError"
   | .RenderDataError => "RenderDataError"
   | .UnknownDataFieldError => "UnknownDataFieldError"
+  | .AttributeError => "AttributeError"
 
 /-! ## dict operations -/
 
@@ -137,7 +142,7 @@ def State.newRec (S : State) (parent : Cls) (args : Option (List Int)) : ClassRe
   let pm := S.mro parent
   -- `render_cls._ALL_DEFAULT_ARGS = {render_cls: args_cls(), **render_cls._ALL_DEFAULT_ARGS}`
   let ada : Dict := match args with
-    | some d => (c, ⟨c, d⟩) :: S.inherited pm
+    | some d => (c, ⟨c, d, 0⟩) :: S.inherited pm
     | none => S.inherited pm
   ⟨c :: pm, args, ada⟩
 
@@ -217,15 +222,16 @@ def State.nfields (S : State) (c : Cls) : Nat := match S.args c with | some d =>
 def nsUpdate (S : State) (ns : NS) (fields : List (Nat × Int)) : Except Err NS :=
   if fields = [] then .ok ns
   else if fields.any (fun f => decide (S.nfields ns.cls ≤ f.1)) then .error .UnknownArgsFieldError
-  else .ok ⟨ns.cls, fields.foldl (fun vs f => vs.set f.1 f.2) ns.vals⟩
+  else .ok { ns with vals := fields.foldl (fun vs f => vs.set f.1 f.2) ns.vals }   -- `type(self).__new__(type(self))`
 
 /-- `ArgsNamespace.__init__(*values, **fields)` of the namespace class associated with `c`
     whose `_FIELDS` (default vector) is `dflt` -/
-def nsInit (c : Cls) (dflt : List Int) (values : List Int) (fields : List (Nat × Int)) : Except Err NS :=
+def nsInit (c : Cls) (dflt : List Int) (values : List Int) (fields : List (Nat × Int)) (tag : Nat := 0) :
+    Except Err NS :=
   if dflt.length < values.length then .error .TypeError
   else if fields.any (fun f => decide (dflt.length ≤ f.1)) then .error .UnknownArgsFieldError
   else if fields.any (fun f => decide (f.1 < values.length)) then .error .TypeError
-  else .ok ⟨c, fields.foldl (fun vs f => vs.set f.1 f.2) (values ++ dflt.drop values.length)⟩
+  else .ok ⟨c, fields.foldl (fun vs f => vs.set f.1 f.2) (values ++ dflt.drop values.length), tag⟩
 
 inductive Operand
   | ns (n : NS)
@@ -259,7 +265,25 @@ def nsPos (S : State) (self : NS) : Except Err (State × Nat) := mk S self.cls n
 def nsToRA (S : State) (self : NS) (rc : Option Cls) : Except Err (State × Nat) :=
   mk S (match rc with | some c => c | none => self.cls) none [self]
 
+/-- `ArgsNamespace.__eq__`: `type(self)._RENDER_CLS is type(other)._RENDER_CLS and all fields equal` -/
 def nsEq (a b : NS) : Bool := decide (a.cls = b.cls) && decide (a.vals = b.vals)
+
+/-- what `ArgsNamespace.__hash__` hashes: `(type(self)._RENDER_CLS, tuple(field values))` -/
+def nsHashKey (n : NS) : Cls × List Int := (n.cls, n.vals)
+
+/-- `namespace.<field>`: `UnknownArgsFieldError` (an `AttributeError`) from `__getattr__` for a name
+    that is neither a field nor any other attribute -/
+def nsGetattr (n : NS) (idx : Nat) : Except Err Int :=
+  match n.vals[idx]? with
+  | some v => .ok v
+  | none => .error .UnknownArgsFieldError
+
+/-- `namespace.<name> = v` and `del namespace.<name>`: always `AttributeError`, nothing changes -/
+def nsSetattr (_n : NS) (_idx : Nat) (_v : Int) : Err := .AttributeError
+def nsDelattr (_n : NS) (_idx : Nat) : Err := .AttributeError
+
+/-- `render_args[x]` for an `x` that is not a render class (unhashable, or not a `RenderableMeta`) -/
+def getitemNonClass : Err := .TypeError
 
 /-! ## `RenderArgs` methods -/
 
@@ -310,7 +334,7 @@ def raEq (S : State) (i j : Nat) : Bool :=
 /-- what `RenderArgs.__hash__` hashes: `(render_cls, tuple(namespaces.values()))` where a namespace
     hashes `(render_cls, tuple(field values))` -/
 def hashKey (S : State) (i : Nat) : Cls × List (Cls × List Int) :=
-  ((S.obj i).rcls, (S.obj i).nss.map (fun e => (e.2.cls, e.2.vals)))
+  ((S.obj i).rcls, (S.obj i).nss.map (fun e => nsHashKey e.2))
 
 /-- `RenderArgs.__contains__` -/
 def contains (S : State) (i : Nat) (ns : NS) : Bool :=
@@ -329,7 +353,7 @@ def lastNs (k : Cls) : List NS → Option NS
     | none => if ns.cls = k then some ns else none
 
 /-- the default namespace of class `k` -/
-def State.dflNs (S : State) (k : Cls) : NS := ⟨k, match S.args k with | some d => d | none => []⟩
+def State.dflNs (S : State) (k : Cls) : NS := ⟨k, (match S.args k with | some d => d | none => []), 0⟩
 
 /-- the classes of the hierarchy of `rc` that have render arguments, most derived first -/
 def State.argClasses (S : State) (rc : Cls) : List Cls := (S.mro rc).filter (fun m => (S.args m).isSome)
